@@ -57,6 +57,24 @@ impl Seek for WritableFile {
 
 impl Write for WritableFile {
     fn write(&mut self, buf: &[u8]) -> std::io::Result<usize> {
+        // The cursor grows its buffer up to the write position. After a seek far past the end that is
+        // more than can be allocated: reserve fallibly, so that the write fails instead of panicking
+        // ("capacity overflow") or aborting the process.
+        let too_large =
+            || std::io::Error::new(std::io::ErrorKind::InvalidInput, "write position is too large");
+        let end = self
+            .content
+            .position()
+            .checked_add(buf.len() as u64)
+            .ok_or_else(too_large)?;
+        let len = self.content.get_ref().len() as u64;
+        if end > len {
+            let additional = usize::try_from(end - len).map_err(|_| too_large())?;
+            self.content
+                .get_mut()
+                .try_reserve(additional)
+                .map_err(|_| too_large())?;
+        }
         self.content.write(buf)
     }
 
